@@ -317,7 +317,7 @@ func runSeq(c Case) (vkit.Info, error) {
 	var info vkit.Info
 	var cls classSet
 	s := simulate(c.Stores, c.Collide, c.Events)
-	f, err := newFixture(s.stores, c.Enc)
+	f, err := newFixture(s.stores, c.Enc, c.RS)
 	if err == errFixture {
 		info.Inconclusive = true
 		return info, nil
@@ -328,6 +328,7 @@ func runSeq(c Case) (vkit.Info, error) {
 	if f.enc > 0 {
 		cls.add("encryption-" + encMethods[f.enc])
 	}
+	cls.add("rs-" + rsModes[f.rsMode])
 	defer func() { f.close() }()
 	f.fkv.KeepLog = true
 
@@ -343,22 +344,93 @@ func runSeq(c Case) (vkit.Info, error) {
 		return info, err
 	}
 	lag := map[string]string{} // key -> "save"/"delete": the last write of this record failed
+	// region storage switched on: M is what leveldb holds, B the acknowledged unflushed saves
+	B := map[string]string{}
+	saves := 0 // saves since the last flush
+	flushModel := func(cache []entry) {
+		for k, v := range B {
+			M[k] = v
+		}
+		B = map[string]string{}
+		saves = 0
+		for k := range M {
+			if _, served := find(cache, idOfKey(k)); !served {
+				cls.add("rs-leftover-after-flush") // saved and displaced within one batch: the next load removes it
+			}
+		}
+	}
 	armed := 0
 	for step, d := range c.Dels {
 		switch d.K {
 		case "fail":
+			if f.rsMode == rsOn {
+				cls.add("fail-not-applicable-region-storage") // region writes do not pass the injector
+				continue
+			}
 			armed = 1 + mod(d.A, 3)
+			continue
+		case "flush":
+			if err := f.storage.Flush(); err != nil {
+				return info, fmt.Errorf("step %d Storage.Flush: %v", step, err)
+			}
+			if f.rsMode == rsOn {
+				flushModel(S0)
+				cls.add("flush-region-storage")
+			} else {
+				cls.add("flush-nothing-to-do")
+			}
+			K1, err := f.kvDump()
+			if err != nil {
+				return info, fmt.Errorf("step %d after Storage.Flush: %v", step, err)
+			}
+			if err := modelIs(M, K1, S0); err != nil {
+				return info, fmt.Errorf("step %d after Storage.Flush: %v", step, err)
+			}
 			continue
 		case "restart":
 			armed = 0
-			cold := d.A%2 == 0
+			cold := mod(d.A, 2) == 0
+			crash := cold && f.rsMode == rsOn && mod(d.A, 4) == 2
 			name := "warm re-election"
 			if cold {
 				name = "cold restart"
 			}
+			if crash {
+				name = "cold restart after a crash"
+			}
 			before := S0
 			if cold {
 				before = nil
+			}
+			alreadyLoaded := false
+			if f.rsMode == rsOn {
+				if cold {
+					// a new process: the handle is closed (graceful: flushed first) and reopened under a new Storage
+					if crash {
+						for k := range B {
+							lag[k] = "save" // acknowledged but never flushed
+						}
+						if len(B) > 0 {
+							cls.add("rs-crash-lost-unflushed-batch")
+						}
+						B = map[string]string{}
+						saves = 0
+					} else {
+						flushModel(S0)
+					}
+					if err := f.reopen(crash); err != nil {
+						return info, fmt.Errorf("step %d %s: %v", step, name, err)
+					}
+					K0, err := f.kvDump()
+					if err != nil {
+						return info, fmt.Errorf("step %d %s: %v", step, name, err)
+					}
+					if err := modelIs(M, K0, S0); err != nil {
+						return info, fmt.Errorf("step %d %s: after closing and reopening the region storage: %v", step, name, err)
+					}
+				} else if f.loadedOnce {
+					alreadyLoaded = true // LoadRegionsOnce: this Storage has loaded its regions before
+				}
 			}
 			f.fkv.ResetCounters()
 			if err := f.restart(cold); err != nil {
@@ -371,6 +443,17 @@ func runSeq(c Case) (vkit.Info, error) {
 			K1, err := f.kvDump()
 			if err != nil {
 				return info, err
+			}
+			if alreadyLoaded {
+				if diff, ok := sameEntries(S0, S1); !ok {
+					return info, fmt.Errorf("step %d %s: the regions had been loaded once from the region storage, yet the cache changed: %s", step, name, diff)
+				}
+				if !sameMap(M, K1) {
+					return info, fmt.Errorf("step %d %s: the regions had been loaded once from the region storage, yet storage changed", step, name)
+				}
+				cls.add("restart-warm-regions-already-loaded")
+				f.fkv.TakeLog()
+				continue
 			}
 			if err := checkLoad(cold, before, M, S1, K1, &cls); err != nil {
 				return info, fmt.Errorf("step %d %s: %v", step, name, err)
@@ -393,10 +476,21 @@ func runSeq(c Case) (vkit.Info, error) {
 			if len(lag) > 0 {
 				cls.add("restart-with-storage-lag")
 			}
-			// from here on: records not in storage are exactly the served regions that lag
+			// from here on: records not in storage are exactly the served regions that lag.
+			// Region storage on: the last acknowledged write is the unflushed one, if any; it can
+			// differ from what is served after a warm load only when the load brought in a leftover
+			// of the same id that is newer than a region reinserted older afterwards (the next flush
+			// then writes the older meta over it: storage lags until that region is saved again).
 			lag = map[string]string{}
 			for _, e := range S1 {
-				if v, ok := K1[regionKey(e.id)]; !ok || v != e.meta {
+				v, ok := K1[regionKey(e.id)]
+				if b, pending := B[regionKey(e.id)]; pending {
+					v, ok = b, true
+					if b != e.meta {
+						cls.add("rs-warm-load-served-newer-leftover-than-unflushed-save")
+					}
+				}
+				if !ok || v != e.meta {
 					lag[regionKey(e.id)] = "save"
 				}
 			}
@@ -532,6 +626,15 @@ func runSeq(c Case) (vkit.Info, error) {
 		// storage follows, one heartbeat at a time: displaced records removed, the region saved when its meta changed
 		for _, e := range displaced {
 			k := regionKey(e.id)
+			if f.rsMode == rsOn {
+				// the delete goes to leveldb directly, the unflushed batch is not purged
+				delete(M, k)
+				delete(lag, k)
+				if _, pending := B[k]; pending {
+					cls.add("rs-displaced-while-unflushed")
+				}
+				continue
+			}
 			if k == failedKey {
 				if _, present := M[k]; present {
 					lag[k] = "delete"
@@ -546,7 +649,14 @@ func runSeq(c Case) (vkit.Info, error) {
 		}
 		if !hadOld || old.meta != cur.meta {
 			k := regionKey(h.ID)
-			if k == failedKey {
+			if f.rsMode == rsOn {
+				B[k] = cur.meta
+				delete(lag, k)
+				if saves++; saves == rsBatchSize {
+					flushModel(S1)
+					cls.add("rs-auto-flush")
+				}
+			} else if k == failedKey {
 				lag[k] = "save"
 				cls.add("write-failed-save")
 			} else {
@@ -559,7 +669,26 @@ func runSeq(c Case) (vkit.Info, error) {
 		if wasArmed && failedKey == "" {
 			cls.add("write-failure-not-hit")
 		}
-		if err := f.storageIs(M, K1, S1, lag); err != nil {
+		if f.rsMode == rsOn {
+			if failedKey != "" {
+				return info, fmt.Errorf("%s: the region storage is switched on but %s %s went to the default kv", pre, failedKind, failedKey)
+			}
+			if err := modelIs(M, K1, S1); err != nil {
+				return info, fmt.Errorf("%s accepted: %v", pre, err)
+			}
+			for _, e := range S1 {
+				if _, lagging := lag[regionKey(e.id)]; lagging {
+					continue
+				}
+				v, ok := B[regionKey(e.id)]
+				if !ok {
+					v, ok = M[regionKey(e.id)]
+				}
+				if !ok || v != e.meta {
+					return info, fmt.Errorf("harness: %s accepted: the last acknowledged save of served region %v is %s", pre, e, descMeta(v))
+				}
+			}
+		} else if err := f.storageIs(M, K1, S1, lag); err != nil {
 			return info, fmt.Errorf("%s accepted: %v", pre, err)
 		}
 
@@ -597,6 +726,73 @@ func runSeq(c Case) (vkit.Info, error) {
 		}
 		maxSeen[h.ID] = m
 		S0 = S1
+	}
+	// epilogue
+	switch f.rsMode {
+	case rsOn:
+		// a flush + load round: Storage.Close, a new process on the same directory, LoadClusterInfo
+		flushModel(S0)
+		if err := f.reopen(false); err != nil {
+			return info, fmt.Errorf("epilogue: %v", err)
+		}
+		K0, err := f.kvDump()
+		if err != nil {
+			return info, fmt.Errorf("epilogue: %v", err)
+		}
+		if err := modelIs(M, K0, S0); err != nil {
+			return info, fmt.Errorf("epilogue, after Storage.Close and reopening the region storage: %v", err)
+		}
+		for _, e := range S0 {
+			if _, lagging := lag[regionKey(e.id)]; lagging {
+				continue
+			}
+			if v, ok := K0[regionKey(e.id)]; !ok || v != e.meta {
+				return info, fmt.Errorf("epilogue: after Storage.Close the served region %v is stored as %s", e, descMeta(v))
+			}
+		}
+		if err := f.restart(true); err != nil {
+			return info, fmt.Errorf("epilogue cold restart: %v", err)
+		}
+		S1, err := f.cacheSnap()
+		if err != nil {
+			return info, fmt.Errorf("epilogue cold restart: %v", err)
+		}
+		K1, err := f.kvDump()
+		if err != nil {
+			return info, fmt.Errorf("epilogue cold restart: %v", err)
+		}
+		// relative to what was stored; includes storage == cache afterwards
+		if err := checkLoad(true, nil, K0, S1, K1, &cls); err != nil {
+			return info, fmt.Errorf("epilogue cold restart: %v", err)
+		}
+		// nothing served before is lost, except against a leftover of another id that is at least as new
+		for _, o := range S0 {
+			if cur, ok := find(S1, o.id); ok && cur.meta == o.meta {
+				continue
+			}
+			_, just := lag[regionKey(o.id)]
+			for _, k := range sortedKeys(K0) {
+				z, _ := recOf(K0[k])
+				if z.id != o.id && z.ver >= o.ver && rangesOverlap(o.start, o.end, z.start, z.end) {
+					just = true
+				}
+			}
+			if !just {
+				return info, fmt.Errorf("epilogue cold restart: %v was served and flushed, is not served afterwards, and no stored record of another id with version >= %d overlaps it", o, o.ver)
+			}
+			cls.add("load-leftover-displaced-served-region")
+		}
+		if len(K0) > len(S0) {
+			cls.add("rs-epilogue-leftovers-pruned")
+		}
+		cls.add("rs-epilogue-flush-load")
+	case rsOff:
+		if err := f.storage.Flush(); err != nil {
+			return info, fmt.Errorf("epilogue Storage.Flush: %v", err)
+		}
+		if err := f.otherBackendClean(); err != nil {
+			return info, fmt.Errorf("epilogue, after Storage.Flush: %v", err)
+		}
 	}
 	cls.into(&info)
 	info.NonTrivial = s.splits+s.merges > 0 && rejected > 0 && displacedN > 0
